@@ -4,7 +4,8 @@
    parametric in the exclusion matcher excl and the per-file documenter docfn. *)
 From Coq Require Import String List Permutation.
 From CMinx Require Import Base.Str Model.Naming Model.Pipeline Model.Walk
-     Gen.SourceLiterals Proofs.WalkFacts Proofs.WalkFacts2 Proofs.LiteralsMatch.
+     Gen.SourceLiterals Proofs.WalkFacts Proofs.WalkFacts2 Proofs.LiteralsMatch
+     Base.PySem Gen.PySource Proofs.SourceMatch.
 Import ListNotations.
 
 (* the written paths are exactly the declaratively expected ones: one index.rst per processed
@@ -56,3 +57,12 @@ Theorem C13_source_literals_pinned :
   /\ geti (s"document") init_ints = [1; 2; 1].
 Proof. exact document_literals. Qed.
 Print Assumptions C13_source_literals_pinned.
+
+(* the names document() hands to the documenter for a file of the tree are those the current
+   document_single_file computes (translated source) *)
+Theorem C13_names_match_source :
+  forall prefix sep isdir relpath basename ext_titles ext_modules,
+    PySource.document_single_file_names prefix sep isdir relpath basename ext_titles ext_modules
+    = header_and_module prefix sep ext_titles ext_modules (if isdir then relpath else basename).
+Proof. exact single_file_names_match_source. Qed.
+Print Assumptions C13_names_match_source.
